@@ -49,6 +49,9 @@ type ConcProg struct {
 	// takes milliseconds, and for every Backup a "late writer" starts a write transaction as soon as it sees the
 	// first copied file in the destination - i.e. provably after the backup's copy began. Its write must not be in the copy.
 	Slow int `json:"slow,omitempty"`
+	// PreMerge (RAM index modes): before the goroutines start, two segments are written and DB.Merge is called once,
+	// so the concurrent phase runs on a database that has been merged (whatever state Merge leaves behind is in effect).
+	PreMerge bool `json:"premerge,omitempty"`
 }
 
 var concKeys = []string{"k1", "k2", "k3", "k4"}
@@ -66,6 +69,9 @@ func genConcProg(maxG int, modes []int, merge, backup bool) *rapid.Generator[Cas
 		}
 		if merge && Known("c15-merge-list-duplication") {
 			p.NoList = true
+		}
+		if c.Cfg.Mode != 2 && rapid.IntRange(0, 7).Draw(t, "premerge") == 5 {
+			p.PreMerge = true
 		}
 		ng := rapid.IntRange(2, maxG).Draw(t, "ng")
 		for g := 0; g < ng; g++ {
@@ -410,7 +416,7 @@ func runConc(c Case, dirs []string, dbs []*nutsdb.DB, backupRoot string) concRes
 	go func() { wg.Wait(); close(done) }()
 	select {
 	case <-done:
-	case <-time.After(90 * time.Second):
+	case <-time.After(60 * time.Second):
 		buf := make([]byte, 1<<20)
 		n := runtime.Stack(buf, true)
 		dump := string(buf[:n])
